@@ -30,12 +30,18 @@ type c19Client struct {
 	fakes.BaseClient
 	arrived chan struct{}
 	release chan bool
+	fails   int
 }
 
 func (c *c19Client) Ping() (*models.PingResult, error) {
 	c.arrived <- struct{}{}
 	if <-c.release {
 		return &models.PingResult{MemdEndpoint: "m", MgmtEndpoint: "g"}, nil
+	}
+	// the real client reports most failures together with a (partial) result: both shapes alternate
+	c.fails++
+	if c.fails%2 == 1 {
+		return &models.PingResult{MemdEndpoint: "m"}, errors.New("scripted ping failure: some services are not healthy")
 	}
 	return nil, errors.New("scripted ping failure")
 }
